@@ -14,7 +14,7 @@ RULE = ("caption sets of 1-6 cues per language with strictly increasing starts, 
         "durations >= 40 ms (one MicroDVD frame, the coarsest resolution), below 24h, 1-3 lines "
         "of visible text from the metacharacter pool + printable Unicode (one text node per "
         "line; '|' excluded); (pairs) every ordered pair of the five formats, two passes; "
-        "(chains) random chains of 3-6 formats, two passes; (multi) 2-language sets over chains "
+        "(chains) random chains of 3-6 formats, two passes; (multi) sets of 2-3 languages, timed independently or on one 100 ms grid so that languages share instants, over chains "
         "of DFXP and SAMI. After every hop: cue count, whitespace-normalised lines, and "
         "floor(t/res) of starts/ends (res = 1 ms, 40 ms once MicroDVD was on the chain; ends of "
         "a language's last cue not compared once SAMI was on the chain). Non-trivial: >= 2 cues "
@@ -138,7 +138,13 @@ def _set(multi=False, pipe=False):
     @st.composite
     def build(draw):
         langs = []
-        for code in (["en-US", "fr-FR"] if multi else ["en-US"]):
+        codes = ["en-US"]
+        grid = False
+        if multi:
+            codes = ["en-US", "fr-FR", "de-DE"][:draw(st.sampled_from([2, 2, 3, 3]))]
+            # languages timed on one coarse grid share start / end instants with each other
+            grid = draw(st.integers(0, 2)) == 0
+        for code in codes:
             s = draw(gen.simple_set(ln, 1, 6, gen.DAY - gen.MIN, min_dur=40 * gen.MS,
                                     empty_lines=True, split_nodes=False, max_lines=3,
                                     empty_kinds=("br", "style", "blank"), edge_breaks=True))
@@ -155,6 +161,13 @@ def _set(multi=False, pipe=False):
                 c["lines"] = ["She said: never ever again."]
                 c["multi"] = False
                 c["empties"] = False
+            if grid:
+                n = len(lang["cues"])
+                pts = sorted(draw(st.lists(st.integers(0, 60), min_size=2 * n, max_size=2 * n, unique=True)))
+                for i, c in enumerate(lang["cues"]):
+                    c["start"], c["end"] = pts[2 * i] * 100 * gen.MS, pts[2 * i + 1] * 100 * gen.MS
+                    if i + 1 < n and draw(st.booleans()):
+                        c["end"] = pts[2 * i + 2] * 100 * gen.MS
             langs.append(lang)
         return {"langs": langs, "styles": {}, "layout": None}
     return build()
